@@ -114,6 +114,13 @@ type EnumSchema struct {
 var _ RootSchema = (*EnumSchema)(nil)
 
 func (s *EnumSchema) OptionByName(name string) *EnumOption {
+	// The name as given comes first: the short name of an option may itself
+	// begin with the prefix (FOO_FOO_BAR is 'FOO_BAR').
+	for _, opt := range s.Options {
+		if opt.name == name {
+			return opt
+		}
+	}
 	shortName := strings.TrimPrefix(name, s.NamePrefix)
 	for _, opt := range s.Options {
 		if opt.name == shortName {
